@@ -3,6 +3,7 @@ import json, os, time
 from .world import Spec, replay
 from . import monitors as M
 from . import engine_s
+from .probes import PROBES
 
 ROOT = os.path.dirname(os.path.dirname(os.path.abspath(__file__)))
 
@@ -71,6 +72,26 @@ def jobs_for(prop, tier):
     if prop in ENGINE_S_PROPS:
         for sp in store_subjects(tier) + fleet_subjects(tier):
             jobs.append({"engine": "S", "prop": prop, "label": sp.label() + "#" + _h(sp), "spec": sp.to_json(), "caps": caps})
+    elif prop == "C07":
+        if q:
+            subs = [S("rs", 2, live=2), S("rps", 1, live=2, prios=[0]), S("rps", 2, live=2, prios=[0]),
+                    S("rpfs", 1, live=2, prios=[0], drain=1, age_cap=0.5),
+                    S("rpfs", 2, live=1, prios=[0], td=1, drain=1, age_cap=2),
+                    S("buffer", 1, live=2, mode="FIFO", delays=[0], drain=1, age_cap=0.5),
+                    S("buffer", 2, live=1, mode="FIFO", delays=[0, 1], drain=1, age_cap=1),
+                    S("buffer", 1, live=2, mode="LIFO", delays=[0], drain=1, age_cap=0.5),
+                    S("buffer", 1, live=1, mode="FIFO", delays=[1], age_cap=2),
+                    S("fleet", 1, live=1, delay=2, transit=1, drain=1, age_cap=3, grid=1),
+                    S("fleet", 2, live=1, delay=2, transit=1, drain=1, age_cap=3, grid=1)]
+        else:
+            subs = store_subjects("quick") + fleet_subjects("quick")
+        for sp in subs:
+            sp.kw["actors"] = 2
+            jobs.append({"engine": "S", "prop": prop, "label": sp.label() + "#" + _h(sp), "spec": sp.to_json(), "caps": caps})
+    elif prop == "C11":
+        for sp in store_subjects(tier) + fleet_subjects(tier):
+            if sp.kind in ("buffer", "fleet"):
+                jobs.append({"engine": "S", "prop": prop, "label": sp.label() + "#" + _h(sp), "spec": sp.to_json(), "caps": caps})
     elif prop == "C14":
         for sp in fleet_subjects(tier, c14=True):
             jobs.append({"engine": "S", "prop": prop, "label": sp.label() + "#" + _h(sp), "spec": sp.to_json(), "caps": caps})
@@ -87,7 +108,7 @@ def run_job(job, seed):
         sp = Spec.from_json(job["spec"])
         prop = job["prop"]
         mons = list(M.MONITORS.get(prop, []))
-        probe = None
+        probe = PROBES.get(prop)
         r = engine_s.explore(sp, prop, mons, probe=probe, seed=seed, **job["caps"])
         d = r.to_json()
         d["engine"] = "S"
